@@ -15,3 +15,4 @@ import GldapModel.Props.FilterSession
 #print axioms Gldap.Filter.render_prefix
 #print axioms Gldap.Filter.render_injective
 #print axioms Gldap.C01_filter_faithful
+#print axioms Gldap.C01_search_faithful
